@@ -202,22 +202,22 @@ Section Sim.
      alone reach (in particular: the same additions are accepted / refused, a panic on one side is one on the other) *)
   Lemma hops_sim hs : forall a b cs a',
     allowed_hops hs = true -> fsimQ a b -> run_hops a hs = (cs, Some a') ->
-    exists cs' b', run_ops b (adds hs) = (cs', Some b') /\ fsimQ a' b'.
+    exists b', run_ops b (adds hs) = (add_classes hs cs, Some b') /\ fsimQ a' b'.
   Proof.
     induction hs as [|h hs IH]; intros a b cs a' Hal Hs H.
-    - cbn [run_hops] in H. injection H as _ <-. exists [], b. split; [reflexivity|exact Hs].
+    - cbn [run_hops] in H. injection H as <- <-. exists b. split; [reflexivity|exact Hs].
     - cbn [allowed_hops forallb] in Hal. apply andb_true_iff in Hal. destruct Hal as [Hal1 Hal2].
       destruct h as [o|opt]; cbn [run_hops adds flat_map app] in H |- *.
       + fold (adds hs). pose proof (step_sim a b o Hs) as Hst. cbn [run_ops].
         destruct (step a o) as [a1| | |]; destruct (step b o) as [b1| | |]; cbn [rrel] in Hst; try contradiction; try discriminate.
-        * destruct (run_hops a1 hs) as [cs1 r1] eqn:E1. injection H as _ ->.
-          destruct (IH a1 b1 cs1 a' Hal2 Hst E1) as (cs' & b' & Hr & Hf).
-          exists (COk :: cs'), b'. rewrite Hr. split; [reflexivity|exact Hf].
-        * destruct (run_hops a hs) as [cs1 r1] eqn:E1. injection H as _ ->.
-          destruct (IH a b cs1 a' Hal2 Hs E1) as (cs' & b' & Hr & Hf).
-          exists (CErr :: cs'), b'. rewrite Hr. split; [reflexivity|exact Hf].
+        * destruct (run_hops a1 hs) as [cs1 r1] eqn:E1. injection H as <- ->.
+          destruct (IH a1 b1 cs1 a' Hal2 Hst E1) as (b' & Hr & Hf).
+          exists b'. rewrite Hr. split; [reflexivity|exact Hf].
+        * destruct (run_hops a hs) as [cs1 r1] eqn:E1. injection H as <- ->.
+          destruct (IH a b cs1 a' Hal2 Hs E1) as (b' & Hr & Hf).
+          exists b'. rewrite Hr. split; [reflexivity|exact Hf].
       + fold (adds hs). destruct (encode_state opt a) as [c [a1|]] eqn:Ee; [|discriminate].
-        destruct (run_hops a1 hs) as [cs1 r1] eqn:E1. injection H as _ ->.
+        destruct (run_hops a1 hs) as [cs1 r1] eqn:E1. injection H as <- ->. cbn [add_classes].
         apply (IH a1 b cs1 a' Hal2); [|exact E1]. exact (enc_sim opt a b c a1 Hal1 Hs Ee).
   Qed.
 End Sim.
@@ -316,7 +316,7 @@ Lemma hops_simW hs a b cs a' :
   fsimW a b -> run_hops a hs = (cs, Some a') ->
   exists cs' b', run_ops b (adds hs) = (cs', Some b') /\ fsimW a' b'.
 Proof.
-  intros Hs H.
+  intros Hs H. exists (add_classes hs cs).
   apply (hops_sim rsim hsim) with (allowed := fun _ => true) (a := a) (cs := cs); try assumption.
   - intros x y (A & _). exact A.
   - intros x y (_ & B & _). exact B.
@@ -362,7 +362,7 @@ Lemma hops_simS hs a b cs a' :
   plain hs = true -> fsimS a b -> run_hops a hs = (cs, Some a') ->
   exists cs' b', run_ops b (adds hs) = (cs', Some b') /\ fsimS a' b'.
 Proof.
-  intros Hp Hs H.
+  intros Hp Hs H. exists (add_classes hs cs).
   apply (hops_sim eqd (@eq tfhd)) with (allowed := negb) (a := a) (cs := cs); try assumption.
   - intros x y Hxy. exact (proj1 (proj1 (eqd_rsim x y Hxy))).
   - intros x y Hxy. exact (proj1 (proj2 (proj1 (eqd_rsim x y Hxy)))).
@@ -378,4 +378,35 @@ Proof.
   intros (HT & R). split; [|exact R]. eapply Forall2_imp; [|exact HT].
   intros t1 t (Hdt & Hh & Hr). split; [exact Hdt|]. split; [rewrite Hh; split; reflexivity|].
   eapply Forall2_imp; [|exact Hr]. intros x y Hxy. exact (proj1 (eqd_rsim x y Hxy)).
+Qed.
+
+(* the same with the outcome classes of the additions made explicit *)
+Lemma hops_simS_cls hs a b cs a' :
+  plain hs = true -> fsimS a b -> run_hops a hs = (cs, Some a') ->
+  exists b', run_ops b (adds hs) = (add_classes hs cs, Some b') /\ fsimS a' b'.
+Proof.
+  intros Hp Hs H.
+  apply (hops_sim eqd (@eq tfhd)) with (allowed := negb) (a := a); try assumption.
+  - intros x y Hxy. exact (proj1 (proj1 (eqd_rsim x y Hxy))).
+  - intros x y Hxy. exact (proj1 (proj2 (proj1 (eqd_rsim x y Hxy)))).
+  - intros n. reflexivity.
+  - intros x y ss Hxy. unfold eqd, tr_add, tr_with_samples, tr_with_doff in *. cbn [tr_version tr_flags tr_fsf tr_samples tr_won] in *.
+    injection Hxy as E1 E2 E3 E4 E5. rewrite E1, E2, E3, E4, E5. reflexivity.
+  - intros x y ->. reflexivity.
+  - exact enc_simS.
+Qed.
+
+Lemma hops_simW_cls hs a b cs a' :
+  fsimW a b -> run_hops a hs = (cs, Some a') ->
+  exists b', run_ops b (adds hs) = (add_classes hs cs, Some b') /\ fsimW a' b'.
+Proof.
+  intros Hs H.
+  apply (hops_sim rsim hsim) with (allowed := fun _ => true) (a := a); try assumption.
+  - intros x y (A & _). exact A.
+  - intros x y (_ & B & _). exact B.
+  - intros n. apply rsim_refl.
+  - apply rsim_add.
+  - intros x y (A & _). exact A.
+  - exact enc_simW.
+  - unfold allowed_hops. apply forallb_forall. intros [o|o] _; reflexivity.
 Qed.
